@@ -160,6 +160,10 @@ func (r *Run) AddViolation(v *Violation) {
 		return
 	}
 	r.Counters["violations_total"]++
+	if os.Getenv("VERIF_BREAKDOWN") != "" {
+		b, _ := json.Marshal(v.Detail)
+		r.Counters["viol:"+v.Signature+" "+string(b)]++
+	}
 	// keep at most 3 witnesses per signature, 12 in total
 	n := 0
 	for _, o := range r.Violations {
